@@ -33,6 +33,7 @@ RECURSIVE SumOver(_, _)
 SumOver(f, S) == IF S = {} THEN 0 ELSE LET x == CHOOSE x \in S : TRUE IN f[x] + SumOver(f, S \ {x})
 Ledger(st) == SumOver(st.own, Owned(st)) + st.pending
 Grows == {"Crystal_AddCrystal", "Crystal_ReadFile"}                \* steps that add to an object the caller already owns
+Storage(ev) == IF "g" \in DOMAIN ev /\ ev.op \in Grows /\ ev.g = 1 THEN 1 ELSE 0        \* the step allocated the array's storage block
 Succeeded(ev) == ev.op # "Call" /\ ev.ok = 1
 \* is the observed change ev.d of the number of live blocks one the ledger allows?  ("" = yes, otherwise what is wrong)
 DeltaWhy(st, ev) ==
@@ -40,14 +41,16 @@ DeltaWhy(st, ev) ==
     [] ev.op = "ClearError" -> IF ev.d = 0 - st.pending THEN "" ELSE "clearing the error returned " \o ToString(0 - ev.d) \o " blocks, the error holds " \o ToString(st.pending)
     [] Succeeded(ev) -> IF ev.op \in Grows THEN (IF ev.d >= 0 THEN "" ELSE "a successful addition released memory")
                         ELSE (IF ev.d >= 1 THEN "" ELSE "a constructor handed out an object without allocating it")
-    [] OTHER ->          \* failed constructor / addition, or a call that hands nothing out: only an error object may stay behind
-         IF ev.err = 1 /\ ev.slot = 1 THEN (IF ev.d >= 1 THEN "" ELSE "an error was reported but no error object was allocated")
-         ELSE (IF ev.d = 0 THEN "" ELSE "live heap blocks changed by " \o ToString(ev.d) \o " across a call that handed nothing out")
+    [] OTHER ->          \* failed constructor / addition, or a call that hands nothing out: only an error object may stay behind --
+                         \* and the storage block a failed addition gave an array that had none (capacity is not content; the block belongs to the array)
+         IF ev.err = 1 /\ ev.slot = 1 THEN (IF ev.d - Storage(ev) >= 1 THEN "" ELSE "an error was reported but no error object was allocated")
+         ELSE (IF ev.d - Storage(ev) = 0 THEN "" ELSE "live heap blocks changed by " \o ToString(ev.d) \o " across a call that handed nothing out")
 HeapStep(st, ev) ==
   CASE ev.op = "Free" -> [st EXCEPT !.own[ev.id] = 0]
     [] ev.op = "ClearError" -> [st EXCEPT !.pending = 0]
     [] Succeeded(ev) /\ ev.op \in Grows -> [st EXCEPT !.own[ev.id] = @ + ev.d]
     [] Succeeded(ev) -> [st EXCEPT !.own[ev.id] = ev.d]
+    [] ev.op \in Grows /\ Storage(ev) = 1 -> [st EXCEPT !.own[ev.id] = @ + 1, !.pending = @ + ev.d - 1]
     [] OTHER -> [st EXCEPT !.pending = @ + ev.d]
 \* outcome protocol seen from the ledger: a failed call reports through the slot iff there is one
 ProtocolOK(ev) == ev.op \in {"Free", "ClearError", "add_compound_data"} \/ ((ev.ok = 1 => ev.err = 0) /\ (ev.ok = 0 /\ ev.slot = 1 => ev.err = 1) /\ (ev.slot = 0 => ev.err = 0))
